@@ -16,6 +16,7 @@ type cgen struct {
 	crlf     bool
 	maxDepth int
 	rich     bool // full menus of spelling choices (thorough tier); otherwise reduced menus
+	plain    bool // inline content restricted to words, soft and hard breaks (block-structure bounds)
 	nlists   int  // lists generated so far (extra indentation after a list would be a continuation)
 }
 
@@ -101,6 +102,9 @@ func (g *cgen) inlines(depth int, multiline, inLink bool) (md, html []byte) {
 	for g.budget > 0 && nondetBool() {
 		g.take()
 		k := g.pick(aKinds)
+		if g.plain {
+			k = [...]int{aWord, aSoft, aHard}[g.pick(3)]
+		}
 		// separator: a single space, or nothing
 		sep := nondetBool()
 		tight := k == aEm || k == aStrong || k == aCode
